@@ -98,7 +98,7 @@ static void eval_case(std::string_view input, const Base* b) {
     if (b && !b->r) rr.reset();
     for (int t = 0; t < 2; t++) {
       const Obs& o = t ? oa : ou;
-      std::string d = refbind::diff(o, rr);
+      std::string d = refbind::diff(o, rr, 0);
       if (!d.empty()) viol("ref", d + (t ? ":aggregator" : ":url"), input, b, "ada=" + o.json() + " model=" + refbind::json(rr));
     }
   }
